@@ -575,6 +575,23 @@ pub fn c05_full_fix() -> Fix {
     f
 }
 
+/// C05 with sessions that end (time-out, kick, client disconnect) and start again: a token bound to the address of
+/// its first use stays bound after the session it created is over
+pub fn c05_lifecycle_fix() -> Fix {
+    let mut f = c05_fix();
+    let identities = vec![(0usize, 0usize), (0, 1), (1, 1), (1, 0)];
+    f.req_pairs = identities.clone();
+    f.resp_pairs = identities.clone();
+    f.identities = identities;
+    f.corrupt = vec![];
+    f.garbage_response = false;
+    f.clock_targets_ms = vec![];
+    f.c10_actions = true;
+    f.max_options = vec![];
+    f.max_challenges = 4;
+    f
+}
+
 /// the table-centred configuration of C10
 pub fn c10_fix(initial_max: usize) -> Fix {
     let public = vec![server_addr(0)];
